@@ -28,13 +28,16 @@ pub struct NoEffectMonitor {
     refusals: u64,
 }
 
-fn handle_states(sess: &mut Session) -> Vec<(usize, u64, u64)> {
+fn handle_states(sess: &mut Session, real_positions: bool) -> Vec<(usize, u64, u64)> {
     use std::io::Seek;
     let mut v = Vec::new();
     for slot in sess.open_slots() {
         if let Some(s) = sess.streams[slot].as_mut() {
             let l = s.len();
-            let p = s.stream_position().unwrap_or(u64::MAX);
+            // no seek(Current(0)) on a handle with unwritten changes before the call under
+            // observation: the model's position (verified by the engine) stands in
+            let modelled = sess.hm[slot].as_ref().filter(|h| h.dirty && !real_positions).map(|h| h.pos);
+            let p = modelled.unwrap_or_else(|| s.stream_position().unwrap_or(u64::MAX));
             v.push((slot, l, p));
         }
     }
@@ -92,7 +95,7 @@ impl Monitor for NoEffectMonitor {
             _ => None,
         };
         if let Some(class) = class {
-            let handles = handle_states(sess);
+            let handles = handle_states(sess, false);
             self.snap = Some(Snapshot { predicted: true, bytes: sess.shared.bytes(), writes: sess.shared.writes(), class, handles });
         } else if let Step::Api(op) = step {
             // not predicted to be refused: if the implementation refuses it all the same
@@ -138,7 +141,7 @@ impl Monitor for NoEffectMonitor {
                 let first = now.iter().zip(snap.bytes.iter()).position(|(a, b)| a != b).unwrap_or(now.len().min(snap.bytes.len()));
                 return Err((format!("refused {} | bytes changed", snap.class), format!("{:?} was refused but the bytes differ (len {} -> {}, first difference at offset {})", step, snap.bytes.len(), now.len(), first)));
             }
-            let hs = handle_states(sess);
+            let hs = handle_states(sess, true);
             if hs != snap.handles {
                 return Err((format!("refused {} | handle state changed", snap.class), format!("{:?}: (slot, len, position) before {:?}, after {:?}", step, snap.handles, hs)));
             }
